@@ -400,8 +400,34 @@ theorem knownDac_of_participates {s : State} {meas : List (MName × Windows)} {d
     rw [List.any_eq_true]
     exact ⟨m, hm, by simpa using hd⟩
 
+theorem aget_filter_key {κ β : Type} [DecidableEq κ] (p : κ → Bool) (k : κ) (l : List (κ × β)) :
+    aget k (l.filter fun kv => p kv.1) = if p k = true then aget k l else none := by
+  induction l with
+  | nil => simp
+  | cons kv l ih =>
+    obtain ⟨a, b⟩ := kv
+    rw [List.filter_cons]
+    by_cases hp : p a = true
+    · simp only [hp, if_true, aget_cons]
+      by_cases e : a = k
+      · subst e; simp [hp]
+      · simp only [e, if_false]; exact ih
+    · have hp' : p a = false := by cases h : p a <;> simp_all
+      simp only [hp', Bool.false_eq_true, if_false]
+      rw [ih, aget_cons]
+      by_cases e : a = k
+      · subst e; simp [hp']
+      · simp [e]
+
+theorem aget_of_filter_key {κ β : Type} [DecidableEq κ] {p : κ → Bool} {k : κ} {l : List (κ × β)} {v : β}
+    (h : aget k (l.filter fun kv => p kv.1) = some v) : aget k l = some v ∧ p k = true := by
+  rw [aget_filter_key] at h
+  by_cases hp : p k = true
+  · rw [if_pos hp] at h; exact ⟨h, hp⟩
+  · rw [if_neg hp] at h; cases h
+
 theorem inv_clear {s : State} (hI : Inv s) : Inv (clear s) := by
-  unfold clear
+  unfold clear clearWith
   refine ⟨?_, ?_, ?_, ?_, ?_, ?_, ?_, ?_⟩
   · intro c outs hc o ho
     have := hI.wfChan c outs hc o ho
@@ -411,7 +437,7 @@ theorem inv_clear {s : State} (hI : Inv s) : Inv (clear s) := by
     | none => simp [hg] at this
     | some g =>
       rw [hg] at this
-      simp only [Option.map_some]
+      simp only [Option.map_some, if_true]
       split <;> (cases hk : o.kind <;> simp_all [Awg.size])
   · intro μ ms hμ m hm
     have := hI.wfMeas μ ms hμ m hm
@@ -426,8 +452,10 @@ theorem inv_clear {s : State} (hI : Inv s) : Inv (clear s) := by
       subst e
       simp at hu
     · rw [if_neg hk] at e
+      simp only [if_true] at e
       subst e
-      obtain ⟨r, _, hp, _⟩ := hI.awgHeld a g' hg n u hu
+      obtain ⟨hu', _⟩ := aget_of_filter_key (p := fun n => !recordedOnAwg s a n) hu
+      obtain ⟨r, _, hp, _⟩ := hI.awgHeld a g hg n u hu'
       exact hk (knownAwg_of_participates hp)
   · intro a g' _ n r h; simp at h
   · intro d g' hg' n w hw
@@ -438,11 +466,12 @@ theorem inv_clear {s : State} (hI : Inv s) : Inv (clear s) := by
       subst e
       simp at hw
     · rw [if_neg hk] at e
+      simp only [if_true] at e
       subst e
-      obtain ⟨r, _, hp, _⟩ := hI.dacHeld d g' hg n w hw
+      obtain ⟨hw', _⟩ := aget_of_filter_key (p := fun n => !recordedOnDac s d n) hw
+      obtain ⟨r, _, hp, _⟩ := hI.dacHeld d g hg n w hw'
       exact hk (knownDac_of_participates hp)
   · intro d g' _ n r h; simp at h
-
 
 /-! ## wiring operations on names no registered program uses -/
 
